@@ -22,8 +22,8 @@ from ..core import MachineryError, Report
 
 CONFIGS = {
     "replay": ["Retarget_tiny.cfg"],
-    "quick": ["Retarget_q1.cfg", "Retarget_q2.cfg", "Retarget_q3.cfg"],
-    "thorough": ["Retarget_t1.cfg", "Retarget_t2.cfg", "Retarget_t3.cfg", "Retarget_t4.cfg", "Retarget_t5.cfg"],
+    "quick": ["Retarget_q1.cfg", "Retarget_q2.cfg", "Retarget_q3.cfg", "Retarget_q4.cfg"],
+    "thorough": ["Retarget_t1.cfg", "Retarget_t2.cfg", "Retarget_t3.cfg", "Retarget_t4.cfg", "Retarget_t5.cfg", "Retarget_t6.cfg"],
 }
 SAMPLE = {"quick": 3000, "thorough": 40000}
 
@@ -113,7 +113,7 @@ def run_tables(prop: str, tier: str, replay: Optional[str], *, spec: str, trace_
             for fpath in files:
                 with open(fpath) as f:
                     cnt = sum(1 for _ in f)
-                share = max(200, int(n * cnt / max(1, total)))
+                share = max(600, int(n * cnt / max(1, total)))
                 lines.extend(reservoir(fpath, share, rng))
                 os.remove(fpath)
             rng.shuffle(lines)
@@ -195,7 +195,8 @@ def run(prop: str, tier: str, replay: str = None) -> int:
         prop, tier, replay, spec="Retarget.tla", trace_spec="TraceRetarget.tla",
         configs=CONFIGS, sample=SAMPLE, nontrivial=_nontrivial,
         rule=("cases = post states of Retarget.tla (ABI x PIE x symbol kinds x multiset of <=k uses "
-              "x registered retarget sequence), stratified seeded sample per generation config; "
+              "x registered retarget sequence, optionally followed by delete_symbol requests in the same "
+              "context), stratified seeded sample per generation config; "
               "non-trivial = the rendered module conforms to the abstract module of the case and "
               "either >=1 mention of a retargeted symbol exists and apply() completed, or a refusal "
               "is expected; distinct by the whole case"),
